@@ -254,6 +254,10 @@ func init() {
 			g.ft.NT = g.r.Range(2, 4)
 			g.ft.Names = []string{"n1", "n2"}
 			g.ft.Groups = []string{"g1", "g2"}
+			if g.r.P(0.3) {
+				g.ft.Names = append(g.ft.Names, "n1 ")
+				g.ft.Groups = append(g.ft.Groups, "g1 ")
+			}
 			g.ft.As = true
 			g.ft.Objects = true
 			g.ft.PDup = 0.4
@@ -456,6 +460,7 @@ func init() {
 			g.ft.NamedSlice = g.r.P(0.3)
 			if g.r.P(0.5) {
 				g.ft.Catalog = true
+				g.ft.LocPC = true
 				g.ft.NT = 6
 				g.ft.Names, g.ft.Groups = []string{"n1", "n2"}, []string{"g1", "g2"}
 			}
